@@ -209,37 +209,37 @@ fn headers_case(len: u32, n: usize, answer: u8) {
 }
 
 
-//@ harness kind=bounded tier=quick bound="requested range <= 3 heights, <= 3 headers returned (cases range/returned/p2p answer)" timeout=1200 extra="-Z async-lib --default-unwind 5"
+//@ harness kind=bounded tier=quick bound="requested range <= 3 heights, <= 3 headers returned (cases range/returned/p2p answer)" heavy=1 timeout=1200 extra="-Z async-lib --default-unwind 5"
 #[cfg(kani)]
 #[kani::proof]
 #[kani::stub(alloc::fmt::format, fmt_stub)]
 fn c26_get_headers_batch_3_3_2() { headers_case(3, 3, 2); }
-//@ harness kind=bounded tier=thorough bound="requested range <= 3 heights, <= 3 headers returned (cases range/returned/p2p answer)" timeout=1200 extra="-Z async-lib --default-unwind 5"
+//@ harness kind=bounded tier=thorough bound="requested range <= 3 heights, <= 3 headers returned (cases range/returned/p2p answer)" heavy=1 timeout=1200 extra="-Z async-lib --default-unwind 5"
 #[cfg(kani)]
 #[kani::proof]
 #[kani::stub(alloc::fmt::format, fmt_stub)]
 fn c26_get_headers_batch_3_2_2() { headers_case(3, 2, 2); }
-//@ harness kind=bounded tier=quick bound="requested range <= 3 heights, <= 3 headers returned (cases range/returned/p2p answer)" timeout=1200 extra="-Z async-lib --default-unwind 5"
+//@ harness kind=bounded tier=quick bound="requested range <= 3 heights, <= 3 headers returned (cases range/returned/p2p answer)" heavy=1 timeout=1200 extra="-Z async-lib --default-unwind 5"
 #[cfg(kani)]
 #[kani::proof]
 #[kani::stub(alloc::fmt::format, fmt_stub)]
 fn c26_get_headers_batch_2_3_2() { headers_case(2, 3, 2); }
-//@ harness kind=bounded tier=thorough bound="requested range <= 3 heights, <= 3 headers returned (cases range/returned/p2p answer)" timeout=1200 extra="-Z async-lib --default-unwind 5"
+//@ harness kind=bounded tier=thorough bound="requested range <= 3 heights, <= 3 headers returned (cases range/returned/p2p answer)" heavy=1 timeout=1200 extra="-Z async-lib --default-unwind 5"
 #[cfg(kani)]
 #[kani::proof]
 #[kani::stub(alloc::fmt::format, fmt_stub)]
 fn c26_get_headers_batch_1_1_2() { headers_case(1, 1, 2); }
-//@ harness kind=bounded tier=thorough bound="requested range <= 3 heights, <= 3 headers returned (cases range/returned/p2p answer)" timeout=1200 extra="-Z async-lib --default-unwind 5"
+//@ harness kind=bounded tier=thorough bound="requested range <= 3 heights, <= 3 headers returned (cases range/returned/p2p answer)" heavy=1 timeout=1200 extra="-Z async-lib --default-unwind 5"
 #[cfg(kani)]
 #[kani::proof]
 #[kani::stub(alloc::fmt::format, fmt_stub)]
 fn c26_get_headers_batch_0_1_2() { headers_case(0, 1, 2); }
-//@ harness kind=bounded tier=quick bound="requested range <= 3 heights, <= 3 headers returned (cases range/returned/p2p answer)" timeout=1200 extra="-Z async-lib --default-unwind 5"
+//@ harness kind=bounded tier=quick bound="requested range <= 3 heights, <= 3 headers returned (cases range/returned/p2p answer)" heavy=1 timeout=1200 extra="-Z async-lib --default-unwind 5"
 #[cfg(kani)]
 #[kani::proof]
 #[kani::stub(alloc::fmt::format, fmt_stub)]
 fn c26_get_headers_batch_2_0_0() { headers_case(2, 0, 0); }
-//@ harness kind=bounded tier=thorough bound="requested range <= 3 heights, <= 3 headers returned (cases range/returned/p2p answer)" timeout=1200 extra="-Z async-lib --default-unwind 5"
+//@ harness kind=bounded tier=thorough bound="requested range <= 3 heights, <= 3 headers returned (cases range/returned/p2p answer)" heavy=1 timeout=1200 extra="-Z async-lib --default-unwind 5"
 #[cfg(kani)]
 #[kani::proof]
 #[kani::stub(alloc::fmt::format, fmt_stub)]
@@ -286,32 +286,32 @@ fn blocks_case(nh: usize, nt: usize, answer: u8) {
 }
 
 
-//@ harness kind=bounded tier=quick bound="<= 2 headers, <= 2 transaction lists (cases headers/lists/p2p answer)" timeout=1200 extra="-Z async-lib --default-unwind 4"
+//@ harness kind=bounded tier=quick bound="<= 2 headers, <= 2 transaction lists (cases headers/lists/p2p answer)" heavy=1 timeout=1200 extra="-Z async-lib --default-unwind 4"
 #[cfg(kani)]
 #[kani::proof]
 #[kani::stub(alloc::fmt::format, fmt_stub)]
 fn c26_get_blocks_2_2_2() { blocks_case(2, 2, 2); }
-//@ harness kind=bounded tier=thorough bound="<= 2 headers, <= 2 transaction lists (cases headers/lists/p2p answer)" timeout=1200 extra="-Z async-lib --default-unwind 4"
+//@ harness kind=bounded tier=thorough bound="<= 2 headers, <= 2 transaction lists (cases headers/lists/p2p answer)" heavy=1 timeout=1200 extra="-Z async-lib --default-unwind 4"
 #[cfg(kani)]
 #[kani::proof]
 #[kani::stub(alloc::fmt::format, fmt_stub)]
 fn c26_get_blocks_2_1_2() { blocks_case(2, 1, 2); }
-//@ harness kind=bounded tier=thorough bound="<= 2 headers, <= 2 transaction lists (cases headers/lists/p2p answer)" timeout=1200 extra="-Z async-lib --default-unwind 4"
+//@ harness kind=bounded tier=thorough bound="<= 2 headers, <= 2 transaction lists (cases headers/lists/p2p answer)" heavy=1 timeout=1200 extra="-Z async-lib --default-unwind 4"
 #[cfg(kani)]
 #[kani::proof]
 #[kani::stub(alloc::fmt::format, fmt_stub)]
 fn c26_get_blocks_1_2_2() { blocks_case(1, 2, 2); }
-//@ harness kind=bounded tier=thorough bound="<= 2 headers, <= 2 transaction lists (cases headers/lists/p2p answer)" timeout=1200 extra="-Z async-lib --default-unwind 4"
+//@ harness kind=bounded tier=thorough bound="<= 2 headers, <= 2 transaction lists (cases headers/lists/p2p answer)" heavy=1 timeout=1200 extra="-Z async-lib --default-unwind 4"
 #[cfg(kani)]
 #[kani::proof]
 #[kani::stub(alloc::fmt::format, fmt_stub)]
 fn c26_get_blocks_0_2_2() { blocks_case(0, 2, 2); }
-//@ harness kind=bounded tier=thorough bound="<= 2 headers, <= 2 transaction lists (cases headers/lists/p2p answer)" timeout=1200 extra="-Z async-lib --default-unwind 4"
+//@ harness kind=bounded tier=thorough bound="<= 2 headers, <= 2 transaction lists (cases headers/lists/p2p answer)" heavy=1 timeout=1200 extra="-Z async-lib --default-unwind 4"
 #[cfg(kani)]
 #[kani::proof]
 #[kani::stub(alloc::fmt::format, fmt_stub)]
 fn c26_get_blocks_1_1_0() { blocks_case(1, 1, 0); }
-//@ harness kind=bounded tier=quick bound="<= 2 headers, <= 2 transaction lists (cases headers/lists/p2p answer)" timeout=1200 extra="-Z async-lib --default-unwind 4"
+//@ harness kind=bounded tier=quick bound="<= 2 headers, <= 2 transaction lists (cases headers/lists/p2p answer)" heavy=1 timeout=1200 extra="-Z async-lib --default-unwind 4"
 #[cfg(kani)]
 #[kani::proof]
 #[kani::stub(alloc::fmt::format, fmt_stub)]
